@@ -174,6 +174,30 @@ def tlc_mc(module, cfg, wd, workers=8, xmx="6g", timeout=1500, simulate=None, de
     return res
 
 
+def apalache_inductive(module, wd, cinit="ConstInit", init="Init", indinit="IndInit", indinv="IndInv", safe="Safe", timeout=900):
+    """Discharge an inductive invariant with Apalache (symbolic, unbounded constants): initiation, consecution, and
+    IndInv => Safe.  Returns the list of obligations; any failure is a tool error (a design-level result, never a verdict)."""
+    out_dir = os.path.join(wd, "apalache")
+    obligations = [("initiation", ["--init=" + init, "--inv=" + indinv, "--length=0"]),
+                   ("consecution", ["--init=" + indinit, "--inv=" + indinv, "--length=1"]),
+                   ("implies_" + safe, ["--init=" + indinit, "--inv=" + safe, "--length=0"])]
+    res = []
+    for name, args in obligations:
+        t = time.time()
+        cmd = ["apalache-mc", "check", "--out-dir=" + out_dir, "--cinit=" + cinit] + args + [module + ".tla"]
+        try:
+            p = subprocess.run(cmd, cwd=SPEC, stdout=subprocess.PIPE, stderr=subprocess.STDOUT, text=True, timeout=timeout)
+        except (subprocess.TimeoutExpired, FileNotFoundError) as e:
+            raise ToolError("apalache did not finish on %s (%s): %s" % (module, name, e))
+        if p.returncode != 0 or "EXITCODE: OK" not in p.stdout:
+            sys.stdout.write(p.stdout[-3000:])
+            raise ToolError("apalache: obligation %s of %s not discharged" % (name, module))
+        res.append({"obligation": name, "module": module, "wall_s": round(time.time() - t, 1)})
+        log("apalache %s %s: discharged in %.1fs" % (module, name, time.time() - t))
+    shutil.rmtree(out_dir, ignore_errors=True)
+    return res
+
+
 def require_actions(mc, names):
     """Vacuity guard: every listed action must have been taken at least once."""
     for n in names:
